@@ -740,6 +740,10 @@ type ScheduleConfig struct {
 // Clone returns a cloned scheduling configuration.
 func (c *ScheduleConfig) Clone() *ScheduleConfig {
 	schedulers := append(c.Schedulers[:0:0], c.Schedulers...)
+	// The args must be copied too, otherwise decoding into the clone writes through to c.
+	for i := range schedulers {
+		schedulers[i].Args = append(schedulers[i].Args[:0:0], schedulers[i].Args...)
+	}
 	var storeLimit map[uint64]StoreLimitConfig
 	if c.StoreLimit != nil {
 		storeLimit = make(map[uint64]StoreLimitConfig, len(c.StoreLimit))
